@@ -29,7 +29,8 @@
     (7) header_size_change_is_flagged (full).
     (8) vssizeof_is_read_size, vssizeof_order_independent, vssizeof_all_fields_is_record_size (full).
     (9) spec_read_cells, spec_read_length, addresses_cover_buffer (full; S at list level, both interlaces).
-    (10) vsread_after_vswrite_is_projection (full, two or more fields): the list VSread delivers = read_buf (parse ...). *)
+    (10) vsread_after_vswrite_is_projection (full, two or more fields): the list VSread delivers = read_buf (parse ...).
+    (11) vsfexist_iff_setfields, vsfexist_all_names (full).  (12) fdefine_stores_definition (full). *)
 From Coq Require Import ZArith List Bool Lia.
 Require Import H4.gen.Gen_VS H4.VSModel H4.VTableSpec H4.VSProofs H4.VSCodecProofs H4.VSChunkProofs H4.VSLayoutProofs H4.VSFullProofs H4.VSDeepProofs.
 Import ListNotations.
@@ -211,7 +212,8 @@ Theorem model_follows_source :
   VSwrite_skeleton = VSwrite_skeleton_modelled /\ VSread_skeleton = VSread_skeleton_modelled /\
   vpackvs_order = vpackvs_order_modelled /\ vunpackvs_order = vunpackvs_order_modelled /\
   VSsetname_len_stmts = VSsetname_len_stmts_modelled /\ VSsetclass_len_stmts = VSsetclass_len_stmts_modelled /\
-  VSsizeof_stmts = VSsizeof_stmts_modelled.
+  VSsizeof_stmts = VSsizeof_stmts_modelled /\ VSfexist_stmts = VSfexist_stmts_modelled /\
+  VSfdefine_stmts = VSfdefine_stmts_modelled.
 Proof. exact model_follows_source_lemma. Qed.
 Print Assumptions model_follows_source.
 
@@ -365,4 +367,33 @@ Example ex_projection :
   rlN_of [2; 0] = [2; 0]%nat /\ szs_of ex_fl = [4; 4; 8]%nat /\ Z.of_nat (length ubuf) = 2 * isum ex_fl /\
   read_buf (1 =? FULL_INTERLACE) (rlN_of [2; 0]) (parse (0 =? FULL_INTERLACE) (szs_of ex_fl) (Z.to_nat 2) ubuf) 0 (Z.to_nat 2) =
     [9;10;11;12;13;14;15;16; 25;26;27;28;29;30;31;32; 1;2;3;4; 17;18;19;20].
+Proof. vm_compute. repeat split. Qed.
+
+(** (11) VSfexist: for every list of names the answer "all exist" is given exactly when VSsetfields accepts the same list for
+    reading, and then EVERY name of the list is the name of a field (not only the last one searched). *)
+Theorem vsfexist_iff_setfields : forall fl names,
+  m_vsfexist fl names = match m_setfields_r (map w_name fl) names with Some _ => true | None => false end.
+Proof. exact vsfexist_iff_setfields_lemma. Qed.
+Print Assumptions vsfexist_iff_setfields.
+Theorem vsfexist_all_names : forall fl names, m_vsfexist fl names = true ->
+  forall nm, In nm names -> exists f, In f fl /\ VSModel.name_eqb (VSModel.cut_name nm) (w_name f) = true.
+Proof. exact vsfexist_all_names_lemma. Qed.
+Print Assumptions vsfexist_all_names.
+Example ex_fexist : m_vsfexist ex_fl [[67]; [65]] = true /\ m_vsfexist ex_fl [[90]; [65]] = false /\ m_vsfexist ex_fl [[65]; [90]] = false.
+Proof. vm_compute. repeat split. Qed.
+
+(** (12) VSfdefine: whether the name is new or defined again, the symbol table afterwards holds under that name exactly the
+    new definition -- number type, order AND the stored element size of the NEW type (so VSsetfields computes isize,
+    offsets and record size from the new type) *)
+Theorem fdefine_stores_definition : forall usym name t order usym',
+  m_fdefine usym name t order = Some usym' ->
+  exists sz, dfkntsize t = Some sz /\
+    find_sym (VSModel.cut_name name) usym' = Some (mksym (VSModel.cut_name name) (s16 t) (u16 (s16 sz)) (u16 order)).
+Proof. exact fdefine_stores_definition_lemma. Qed.
+Print Assumptions fdefine_stores_definition.
+Example ex_redefine :
+  match m_fdefine [mksym [97] DFNT_INT8 1 1; mksym [98] DFNT_INT16 2 1] [97] DFNT_INT32 2 with
+  | Some u => u = [mksym [97] DFNT_INT32 4 2; mksym [98] DFNT_INT16 2 1] /\
+              option_map (fun w => (wl_ivsize w, map w_isize (wl_fields w), map w_off (wl_fields w))) (m_setfields_w u [[97]; [98]]) = Some (10, [8; 2], [0; 8])
+  | None => False end.
 Proof. vm_compute. repeat split. Qed.
